@@ -12,7 +12,9 @@ CONSTANTS MaxListing
 
 I(m) == PIns(m, <<>>)
 Args == { I("a"), PIns("a", <<OLit("x")>>), PAnd(<<I("a"), I("b")>>), POr(<<I("a"), I("b")>>),
-          PNot(I("a")) }
+          PNot(I("a")),
+          \* an argument that carries its own repetition: X = (a|b){2}, (a|b){0,1} (matches everywhere), a{2}
+          WithTimes(POr(<<I("a"), I("b")>>), 2, 2), WithTimes(POr(<<I("a"), I("b")>>), 0, 1), WithTimes(I("a"), 2, 2) }
 N(x) == PNot(x)
 PatternsI == UNION { { PAnd(<<N(x), I("q")>>), PAnd(<<I("p"), N(x), I("q")>>), PAnd(<<I("p"), N(x)>>),
                        PAnd(<<N(x)>>), PAnd(<<I("p"), WithTimes(N(x), 2, 2), I("q")>>),
@@ -22,7 +24,7 @@ BodiesI == { <<"a", <<>> >>, <<"a", <<"x">> >>, <<"b", <<>> >>, <<"p", <<>> >>, 
 ListingsI == ListingsOver(BodiesI, 0, MaxListing)
 
 X == OLit("x")  Y == OLit("y")  Z == OLit("z")
-OArgs == { X, OOr(<<X, Y>>), OLit("xy") }
+OArgs == { X, OOr(<<X, Y>>), OLit("xy"), WithTimes(OOr(<<X, Y>>), 2, 2) }
 PatternsO == UNION { { PAnd(<<PIns("m", <<ONot(g)>>)>>), PAnd(<<PIns("m", <<ONot(g), Y>>)>>),
                        PAnd(<<PIns("m", <<Z, ONot(g)>>)>>), PAnd(<<PIns("m", <<ONot(g)>>), I("q")>>),
                        PAnd(<<PIns("m", <<ONot(g), ONot(g)>>)>>),
@@ -39,7 +41,7 @@ ArgsF == { I("a"), POr(<<I("a"), I("b")>>), PIns("a", <<OLit("x")>>), PAnd(<<I("
 PatternsF == UNION { { PAnd(<<N(x), I("q")>>), PAnd(<<I("p"), N(x), I("q")>>), PAnd(<<I("p"), N(x)>>), PAnd(<<N(x)>>),
                        PAnd(<<I("p"), WithTimes(N(x), 2, 2), I("q")>>) } : x \in ArgsF }
 BodiesF == { <<"a", <<>> >>, <<"ab", <<>> >>, <<"ba", <<>> >>, <<"a", <<"xy">> >>, <<"b", <<>> >>, <<"p", <<>> >>, <<"q", <<>> >> }
-ListingsF == ListingsOver(BodiesF, 0, MaxListing)
+ListingsF == ListingsOver(BodiesF, 0, 3)
 UniverseF == [patterns |-> SetToSeq(PatternsF), listings |-> SetToSeq(ListingsF)]
 \* ---- capture names first bound inside the argument of a $not (JasmPattern!SoundScope: judged one-sidedly) ----
 R == OCap("r")
@@ -49,7 +51,7 @@ PatternsN == UNION { { PAnd(<<N(x), I("q")>>), PAnd(<<N(x), PIns("b", <<R>>)>>),
              \cup { PAnd(<<PIns("m", <<ONot(R), R>>)>>), PAnd(<<PIns("m", <<ONot(R)>>), PIns("b", <<R>>)>>) }
 BodiesN == { <<"a", <<"x", "x">> >>, <<"a", <<"x", "y">> >>, <<"b", <<"x">> >>, <<"b", <<"y">> >>, <<"b", <<"x", "x">> >>,
              <<"m", <<"x", "x">> >>, <<"p", <<>> >>, <<"q", <<>> >> }
-ListingsN == ListingsOver(BodiesN, 0, MaxListing)
+ListingsN == ListingsOver(BodiesN, 0, 3)
 UniverseN == [patterns |-> SetToSeq(PatternsN), listings |-> SetToSeq(ListingsN)]
 Universe == [patterns |-> SetToSeq(PatternsI), listings |-> SetToSeq(ListingsI)]
 UniverseO == [patterns |-> SetToSeq(PatternsO), listings |-> SetToSeq(ListingsO)]
